@@ -12,6 +12,7 @@ import argparse
 import importlib
 import json
 import os
+import re
 import sys
 
 from . import core
@@ -94,13 +95,23 @@ def check(prop: str, tier: str, only: str | None = None, repo: str | None = None
     from .anchors import missing_anchors
 
     gone = missing_anchors(f"olsa.rules.{prop.lower()}", ctx.repo)
-    if gone:
-        for a, mods in sorted(gone.items()):
-            rep.analysis_errors.append(f"anchor `{a}` no longer exists in the repository (renamed or removed?); it is matched by name in {', '.join(m.split('.')[-1] for m in mods[:4])}: no rule was evaluated")
+    blind_all, blind_mods = _blind(gone)
+    affected = blind_all or any(_rule_module(rid, f) & blind_mods for rid, f in mod.RULES)
+    for a, mods in sorted(gone.items()):
+        if not affected:
+            print(f"NOTE anchor `{a}` (matched by name in {', '.join(m.split('.')[-1] for m in mods[:4])}) no longer exists; no rule of this property depends on it")
+            continue
+        scope = "no rule was evaluated" if blind_all else f"the rules of {', '.join(sorted(m.split('.')[-1] for m in mods))} were not evaluated"
+        rep.analysis_errors.append(f"anchor `{a}` no longer exists in the repository (renamed or removed?); it is matched by name in {', '.join(m.split('.')[-1] for m in mods[:4])}: {scope}")
+    if blind_all:
         rep.extra["files_analysed"] = list(ctx.prog.files)
         return rep.finish()
+    for a, mods in sorted(missing_anchors(f"olsa.rules.{prop.lower()}", ctx.repo, soft=True).items()):
+        print(f"NOTE table entry `{a}` (used by {', '.join(m.split('.')[-1] for m in mods[:4])}) is no longer in the repository: the rules judge what that changes")
     for rule_id, fn in mod.RULES:
         if only and rule_id != only:
+            continue
+        if _rule_module(rule_id, fn) & blind_mods:
             continue
         try:
             rr = fn(ctx)
@@ -116,6 +127,8 @@ def check(prop: str, tier: str, only: str | None = None, repo: str | None = None
         if rr is None:
             continue
         for r in rr if isinstance(rr, list) else [rr]:
+            if _rule_module(r.rule, None) & blind_mods:
+                continue
             rep.add(r)
     if ctx._tmpl is not None:
         for key, msg in ctx.tmpl.errors.items():
@@ -160,10 +173,15 @@ def probe(prop):
     from .anchors import missing_anchors
 
     gone = missing_anchors(f"olsa.rules.{prop.lower()}", ctx.repo)
-    if gone:
-        print(json.dumps({"new": [], "analysis_errors": [f"anchor {a} vanished (used by {','.join(m.split('.')[-1] for m in mods[:3])})" for a, mods in sorted(gone.items())]}))
+    blind_all, blind_mods = _blind(gone)
+    if blind_all or any(_rule_module(rid, f) & blind_mods for rid, f in mod.RULES):
+        errs += [f"anchor {a} vanished (used by {','.join(m.split('.')[-1] for m in mods[:3])})" for a, mods in sorted(gone.items())]
+    if blind_all:
+        print(json.dumps({"new": [], "analysis_errors": errs}))
         return 0
     for rule_id, fn in mod.RULES:
+        if _rule_module(rule_id, fn) & blind_mods:
+            continue
         try:
             rr = fn(ctx)
         except core.AnalysisError as e:
@@ -173,6 +191,8 @@ def probe(prop):
             errs.append(f"{rule_id}: internal error {traceback.format_exc()[-300:]}")
             continue
         for r in rr if isinstance(rr, list) else ([rr] if rr is not None else []):
+            if _rule_module(r.rule, None) & blind_mods:
+                continue
             if r.instances < r.floor:
                 errs.append(f"{r.rule}: {r.instances} instances < floor {r.floor}")
             for f in r.findings:
@@ -187,6 +207,25 @@ def probe(prop):
         errs += [f"verdict {k} dropped (template missing)" for k in dropped]
     print(json.dumps({"new": new, "analysis_errors": errs}))
     return 0
+
+
+def _blind(gone):
+    """A vanished hard anchor blinds the analyser modules that match it by name: everything when an
+    engine module is among them, otherwise only the rules owned by those rule modules."""
+    mods = {m for ms in gone.values() for m in ms}
+    rule_mods = {m for m in mods if re.fullmatch(r"olsa\.rules\.c\d\d", m)}
+    return bool(mods - rule_mods), rule_mods
+
+
+def _rule_module(rule_id, fn):
+    """The rule modules a rule belongs to: by its id (C14-R5 -> c14) and by where it is defined."""
+    out = set()
+    m = re.match(r"C(\d\d)", rule_id or "")
+    if m:
+        out.add(f"olsa.rules.c{m.group(1)}")
+    if fn is not None and re.fullmatch(r"olsa\.rules\.c\d\d", getattr(fn, "__module__", "") or ""):
+        pass  # a wrapper defined in the property's own module: the id decides
+    return out
 
 
 def main(argv=None):
